@@ -1341,11 +1341,45 @@ func (ev *Event) Serialize() ([]byte, error) {
 		ev.Content,
 	}
 
-	ret, err := json.Marshal(&v)
-	if err != nil {
+	// NIP-01 fixes the escapes of the serialization: json.Marshal would also
+	// write <, > and & as \u003c, \u003e and \u0026, and the id would differ
+	// from the one every client computes.
+	var buf bytes.Buffer
+	enc := json.NewEncoder(&buf)
+	enc.SetEscapeHTML(false)
+	if err := enc.Encode(&v); err != nil {
 		return nil, fmt.Errorf("failed to marshal event: %w", err)
 	}
-	return ret, nil
+	return unescapeLineSeparators(bytes.TrimSuffix(buf.Bytes(), []byte("\n"))), nil
+}
+
+// unescapeLineSeparators turns the \u2028 and \u2029 escapes, which
+// encoding/json emits unconditionally, back into the characters themselves.
+func unescapeLineSeparators(b []byte) []byte {
+	if !bytes.Contains(b, []byte(`\u202`)) {
+		return b
+	}
+
+	ret := make([]byte, 0, len(b))
+	for i := 0; i < len(b); i++ {
+		if b[i] != '\\' || i+1 >= len(b) {
+			ret = append(ret, b[i])
+			continue
+		}
+		if bytes.HasPrefix(b[i:], []byte(`\u2028`)) {
+			ret = append(ret, "\u2028"...)
+			i += 5
+		} else if bytes.HasPrefix(b[i:], []byte(`\u2029`)) {
+			ret = append(ret, "\u2029"...)
+			i += 5
+		} else {
+			// any other escape: copy both bytes so that an escaped backslash
+			// is never taken for the start of an escape
+			ret = append(ret, b[i], b[i+1])
+			i++
+		}
+	}
+	return ret
 }
 
 func (ev *Event) Verify() (bool, error) {
